@@ -12,7 +12,6 @@ import contextlib
 import io
 import json
 import math
-import random
 import warnings
 from datetime import datetime, timedelta
 from fractions import Fraction
@@ -68,10 +67,6 @@ def battery_params(bp):
     if bp == "fit":
         return {"type": Linear2StageBattery, "capacity_fn": batt_cap_fn}, None
     raise LatticeError("unknown battery parameter dictionary %r" % bp)
-
-
-def _batt(b, name):
-    return getattr(b, name)
 
 
 def full_rate_delivery(batt, voltage, period, stay):
@@ -162,11 +157,6 @@ def doc_args(cfg):
     bp, probe = battery_params(cfg["bp"])
     max_len = None if cfg["maxlen"] < 0 else cfg["maxlen"]
     return cfg["P"], cfg["V"], cfg["pw"] / 1000.0, max_len, bp, cfg["ff"], probe
-
-
-def fit_expect(verdict):
-    """'must' convert, 'may' raise, or None (undecided: either)."""
-    return {"feasible": "must", "infeasible": "may"}.get(verdict)
 
 
 def replay_doc(cfg, inp, out):
@@ -455,7 +445,7 @@ TIERS = {
                 "RowPeriods": "<- RowPeriodsAll", "RowK": "<- RowKAll", "RowMaxLens": "<- RowMaxLensAll",
                 "FitVolts": "<- FitVoltsAll", "FitPeriods": "<- FitPeriodsAll", "FitStays": "<- FitStaysAll",
                 "FitEnergies": "<- FitEnergiesAll", "FitFracs": "<- FitFracsAll"},
-        "sims": [("doc", 30000), ("doc", 30000), ("row", 12000), ("fit", 3000)],
+        "sims": [("doc", 30000), ("doc", 30000), ("row", 6000), ("fit", 3000)],
     },
 }
 WIDE = {"Bases": "<- BasesAll", "StartOffs": "<- OffsAll", "Periods": "<- PeriodsAll", "Zones": "<- ZonesAll",
